@@ -23,6 +23,8 @@ type binder struct {
 	inlineD int
 	// classOf: rendered name of every module function that appears as an opaque call -> its signature class
 	classOf map[string]string
+	// showBodies: render calls of module helpers as name(args)=>{what they return, in terms of the arguments}
+	showBodies bool
 	// useSite: when set, fieldRef of a local struct variable considers whether the field was assigned before this point
 	useSite ssa.Instruction
 	// carrier struct types whose fields are looked through (field-based): values stored into T.f
@@ -162,6 +164,20 @@ func (b *binder) bind1(v ssa.Value, d int) string {
 				}
 				if s, ok := b.inlineSelector(cal, as, x.Index, d); ok {
 					return s
+				}
+			}
+		}
+		if call, ok := x.Tuple.(*ssa.Call); ok && b.showBodies && b.inlineD < 2 {
+			if cal := call.Call.StaticCallee(); cal != nil && !call.Call.IsInvoke() && b.c.P.isModuleFn(cal) && len(cal.Blocks) > 0 && !isProtoPkg(fnPkgPath(cal)) {
+				var as []string
+				for _, a := range call.Call.Args {
+					as = append(as, b.bindD(a, d+1))
+				}
+				if len(as) == len(cal.Params) {
+					if body := b.bodyOf(cal, as, x.Index, d); body != "" {
+						b.classOf[cal.Name()] = sigClass(cal)
+						return cal.Name() + "(" + strings.Join(as, ",") + ")#" + fmt.Sprint(x.Index) + "=>{" + body + "}"
+					}
 				}
 			}
 		}
@@ -504,13 +520,38 @@ func (b *binder) bindCall(x *ssa.Call, d int) string {
 	if b.c.P.isModuleFn(cal) {
 		b.classOf[cal.Name()] = sigClass(cal)
 	}
+	body := ""
+	if b.showBodies && b.c.P.isModuleFn(cal) && b.inlineD < 2 && len(cal.Blocks) > 0 && len(cal.Params) == len(as) && !isProtoPkg(fnPkgPath(cal)) && cal.Signature.Results().Len() == 1 {
+		body = b.bodyOf(cal, as, 0, d)
+	}
+	defer func() { _ = body }()
 	fname := cal.Name()
 	if cal.Signature.Recv() != nil && !b.c.P.fnIndex[cal] {
 		fname = typeName(cal.Signature.Recv().Type()) + "." + fname
 	} else if !b.c.P.fnIndex[cal] && cal.Pkg != nil {
 		fname = cal.Pkg.Pkg.Name() + "." + fname
 	}
+	if body != "" {
+		return fname + "(" + strings.Join(as, ",") + ")=>{" + body + "}"
+	}
 	return fname + "(" + strings.Join(as, ",") + ")"
+}
+
+// bodyOf: the alternatives of result idx of cal with its parameters standing for the bound arguments ("" when too big).
+func (b *binder) bodyOf(cal *ssa.Function, args []string, idx int, d int) string {
+	sub := b.withArgs(cal, args)
+	sub.showBodies = true
+	var as []string
+	for _, blk := range cal.Blocks {
+		if ret, ok := blk.Instrs[len(blk.Instrs)-1].(*ssa.Return); ok && idx < len(ret.Results) {
+			as = append(as, sub.bindD(ret.Results[idx], d+1))
+		}
+	}
+	s := alts(as)
+	if len(s) > 900 {
+		return ""
+	}
+	return s
 }
 
 var leafRe = regexp.MustCompile(`(col|proto):[A-Za-z0-9_.?]+`)
@@ -919,4 +960,55 @@ func (b *binder) atCallSite(g *ssa.Function, region []*ssa.Function) *binder {
 		as = append(as, b.bind(a))
 	}
 	return b.withArgs(g, as)
+}
+
+// bindInContext binds value v of function fn with fn's parameters standing for what its callers pass (the union over
+// the call sites inside `within`, followed transitively up to three levels): a store that a refactoring moved into a
+// helper is then described in the terms of the function it was moved out of.
+func (b *binder) bindInContext(fn *ssa.Function, v ssa.Value, within map[*ssa.Function]bool, depth int) string {
+	return b.bindInContextT(fn, v, within, depth, "")
+}
+
+// bindInContextT: as bindInContext, substituting only the parameters whose type prints as onlyType ("" = all).
+func (b *binder) bindInContextT(fn *ssa.Function, v ssa.Value, within map[*ssa.Function]bool, depth int, onlyType string) string {
+	var sites []ssa.CallInstruction
+	var callers []*ssa.Function
+	// a function that reads a file itself (it receives the *csv.File) is where the columns are named: its own
+	// parameters (location, id tables) are context, not data
+	for _, prm := range fn.Params {
+		if shortType(prm.Type()) == "*csv.File" && onlyType == "" {
+			return b.bind(v)
+		}
+	}
+	if depth < 3 {
+		for _, e := range b.c.P.Callers(fn) {
+			if within[e.Caller] && e.Caller != fn {
+				sites = append(sites, e.Site)
+				callers = append(callers, e.Caller)
+			}
+		}
+	}
+	if len(sites) == 0 || len(sites) > 4 || len(fn.Params) == 0 {
+		return b.bind(v)
+	}
+	var as []string
+	for i, site := range sites {
+		var args []string
+		for k, a := range site.Common().Args {
+			if onlyType != "" && (k >= len(fn.Params) || shortType(fn.Params[k].Type()) != onlyType) {
+				if k < len(fn.Params) {
+					args = append(args, paramRef(fn.Params[k])) // left as it is
+				} else {
+					args = append(args, "?")
+				}
+				continue
+			}
+			args = append(args, b.bindInContextT(callers[i], a, within, depth+1, onlyType))
+		}
+		if len(args) != len(fn.Params) {
+			return b.bind(v)
+		}
+		as = append(as, b.withArgs(fn, args).bind(v))
+	}
+	return alts(as)
 }
